@@ -747,10 +747,12 @@ pub fn get_value(
         Some(Function::Least) => {
             match function_arg.parse::<f64>() {
                 Ok(val) => {
+                    // an argument that is no number leaves no smallest value, wherever it stands
                     let mut least = val;
                     for arg in function_args {
-                        if let Ok(val) = arg.parse::<f64>() {
-                            least = least.min(val);
+                        match arg.parse::<f64>() {
+                            Ok(val) => least = least.min(val),
+                            _ => return Variant::empty(VariantType::String),
                         }
                     }
 
@@ -764,8 +766,9 @@ pub fn get_value(
                 Ok(val) => {
                     let mut greatest = val;
                     for arg in function_args {
-                        if let Ok(val) = arg.parse::<f64>() {
-                            greatest = greatest.max(val);
+                        match arg.parse::<f64>() {
+                            Ok(val) => greatest = greatest.max(val),
+                            _ => return Variant::empty(VariantType::String),
                         }
                     }
 
